@@ -46,6 +46,7 @@ func main() {
 			}
 			rr.runItem(items[i])
 		})
+		rr.flushLLVM()
 	}
 
 	if only == "" || only == "loong64" {
@@ -81,6 +82,7 @@ func main() {
 			accBy[items[i].name] += a
 			mu.Unlock()
 		})
+		xr.flushLLVM()
 		var never []string
 		for _, it := range items {
 			if accBy[it.name] == 0 {
@@ -94,11 +96,37 @@ func main() {
 		cov["x64_mnemonics_never_accepted"] = never
 	}
 
+	if only == "" || only == "arm64" {
+		arm64Probe(r, cov)
+	}
+
+	r.Bound("register_alphabet", "all 32 (RISC-V, LoongArch: all X/F, 8 FCC, 4 FCSR) / all 16 per class + ah..bh + 8 xmm + rip + none (x86-64 base)")
+	r.Bound("immediate_boundary_alphabet", len(immBoundary))
+	r.Bound("immediate_dense_range", "every value of the accepted hull, clipped to +-(2^(field width+alignment)+8) and to +-(2^21+16) (thorough, 4-byte aligned branch offsets: +-(2^26+16))")
+	r.Bound("x64_displacements", len(xDisps))
+	r.Bound("thorough_full_product_limit", "register tuples x dense immediates when the product is <= 2^27 per mnemonic")
+	r.Assume("an operand combination is 'accepted' when Encode returns without error and without panic; combinations that panic (all RISC-V pseudo-instructions, RISC-V FP ops given F registers, most x86-64 SSE/8-bit/16-bit register forms) are outside the property and only counted")
+	r.Assume("immediates: equal, or equal bit pattern of the encoded field with the value inside the union of the field's signed and unsigned range (documented in loong64/encode.go; lui x1,-1 == lui x1,0xfffff)")
+	r.Assume("LoongArch: Wa's opcode table loong64/a_out.go (mask/value pairs) shares provenance with x/arch loong64asm's table and no second LoongArch disassembler exists here (llvm-14 has no LoongArch target): the oracle is independent of Wa's operand packing, NOT of the opcode constants")
+	r.Assume("LoongArch si14 (LL/SC/LDPTR/STPTR) and ALSL sa2 are compared as raw field values (Wa's Imm convention), x/arch shows the assembler-level value (si14<<2, sa2+1)")
+	r.Assume("x86-64: only operand shapes expressible in Intel syntax for the mnemonic are demanded (sizes agree, immediate fits); Wa's operand model has no index/scale, so the scale/index dimension is empty; only xmm0-7 exist in Wa's register file")
+	r.Assume("RV32 mode shares the code path of RV64 except the shamt range: it is enumerated with per-slot register sweeps and all immediates, RV64 with full register products")
+	r.Assume("AArch64: arm64.EncodeARM64 is panic(\"TODO\") at this commit: 0 accepted encodings, clause vacuous")
+	r.Assume("the rounding-mode field of RISC-V FP instructions is not an operand of Wa's encoder (always RNE) and is not compared")
+
 	cov["llvm_mc_lines"] = llvmLines.Load()
 	for k, v := range cov {
 		r.Extra(k, v)
 	}
 	agg.flush(func(key, what string, replay any) { r.Report(key, what, replay) })
+	if only == "" && r.DistinctCount() < 300 {
+		r.HarnessError("vacuous: only %d distinct correctly decoded mnemonics", r.DistinctCount())
+	}
+	if r.WantSample() {
+		r.Sample(map[string]any{"arch": "riscv", "asked": "addi rd=x5 rs1=x6 imm=-3", "encoding": "ffd30293", "xarch": "ADDI x5,x6,-3", "llvm": "addi x5, x6, -3", "wa_decode": "ADDI X5, X6, -3"})
+		r.Sample(map[string]any{"arch": "loong64", "asked": "addi.d rd=x4 rj=x5 imm=4095", "encoding": "02fffca4", "xarch": "ADDI.D rd=r4 rj=r5 si12=-1 (alias of 4095)"})
+		r.Sample(map[string]any{"arch": "x64", "asked": "add dword ptr [rbp-16], 1000", "encoding": "81 45 f0 e8 03 00 00", "xarch": "add dword ptr [rbp-0x10], 0x3e8"})
+	}
 	llvmDone()
 	pprof.StopCPUProfile()
 	r.Finish()
